@@ -594,6 +594,7 @@ type c38Exec struct {
 	bare     http.Handler
 	reported map[string]bool
 	aborted  bool
+	wedged   bool
 	startSeq int
 	lastDig  string // digest after the previous request ("" = unknown)
 	digCache string
@@ -925,11 +926,14 @@ func c38IsHarnessGap(text string) bool {
 	return false
 }
 
-// guard runs fn (which takes memstore's cluster mutex) under the wall-clock
-// watchdog: a panic of the code under test inside a store call can leave that
-// mutex locked for ever (memstore unlocks without defer). A timeout abandons the case.
+// guard runs fn (which takes memstore's cluster mutex) with a 3 s limit: when
+// the code under test calls the store after its request context was cancelled
+// (importLogs returns while its import goroutine is still running), memstore
+// panics with its mutex held and the mutex is never released. That is a
+// harness limitation, counted as harness_gap; the case continues on a fresh,
+// re-seeded env (x.wedged, see exec). Never a verdict.
 func (x *c38Exec) guard(what string, fn func()) bool {
-	if x.aborted {
+	if x.aborted || x.wedged {
 		return false
 	}
 	done := make(chan struct{})
@@ -937,10 +941,11 @@ func (x *c38Exec) guard(what string, fn func()) bool {
 	select {
 	case <-done:
 		return true
-	case <-time.After(c38WatchdogSeconds * time.Second):
-		x.aborted = true
+	case <-time.After(3 * time.Second):
+		x.wedged = true
 		x.agg.count("harness_gap", 1)
-		x.agg.seen("harness_gaps", "memstore cluster mutex never released ("+what+" blocked "+fmt.Sprint(c38WatchdogSeconds)+" s) - case abandoned")
+		x.agg.count("store_wedged", 1)
+		x.agg.seen("harness_gaps", "memstore cluster mutex never released ("+what+" blocked 3 s): memstore panicked inside a store call made after the request context was cancelled - env replaced")
 		if len(x.st.history) > 0 {
 			h := x.st.history[len(x.st.history)-1]
 			x.agg.seen("harness_gap_examples", c38Trunc(fmt.Sprintf("store wedged after: %s %s %s", h.Method, h.Target, h.Body), 600))
@@ -1161,12 +1166,18 @@ func (x *c38Exec) exec(rt *c38Route, m c38Mut, validKey string) (status int) {
 		_ = x.subst(m.Req)
 		return 0
 	}
+	if x.wedged {
+		x.maybeReseed()
+	}
 	usedBefore := x.uniq
 	q := x.subst(m.Req)
 	a := x.agg
 	before := x.lastDig
 	if before == "" || x.uniq != usedBefore {
 		before = x.digest()
+	}
+	if (rt.Body == "import" || rt.Body == "bulk") && x.sinceFl > 0 {
+		x.flush() // handlers with goroutines of their own can kill the process: hand over what we have
 	}
 	x.writeInflight(rt, m, q)
 	t0 := time.Now()
@@ -1194,7 +1205,9 @@ func (x *c38Exec) exec(rt *c38Route, m c38Mut, validKey string) (status int) {
 		x.abortAll() // a panicked handler leaves its store transaction open
 	}
 	after := x.digest()
-	if x.aborted {
+	if x.wedged {
+		x.hist(q, resp.Status)
+		x.maybeReseed()
 		return 0
 	}
 	if after != before {
@@ -1294,9 +1307,10 @@ func (x *c38Exec) exec(rt *c38Route, m c38Mut, validKey string) (status int) {
 // maybeReseed keeps the ledgers small (the state digest is linear in their size):
 // after 80 state-changing requests the case continues on a fresh, re-seeded env.
 func (x *c38Exec) maybeReseed() {
-	if x.writes < 80 || x.aborted {
+	if (x.writes < 80 && !x.wedged) || x.aborted {
 		return
 	}
+	x.wedged = false
 	x.reseeds++
 	go x.env.Close()
 	x.env = sim.NewEnv(sim.Options{})
@@ -1314,7 +1328,7 @@ func (x *c38Exec) maybeReseed() {
 // maybeFlush hands the partial results of a long case to the parent, so that a
 // later crash of this process loses little.
 func (x *c38Exec) maybeFlush() {
-	if x.out == nil || x.sinceFl < 150 {
+	if x.out == nil || x.sinceFl < 100 {
 		return
 	}
 	x.flush()
